@@ -77,7 +77,56 @@ def block_order(case):
     return order
 
 
+def locate(case, bu, lst0, applied, e):
+    """
+    Where the not yet applied modification e lands in the current IR, given
+    the modifications already applied: the listing edited by `applied` gives
+    the interval position of the instruction boundary e names, and the block
+    of the IR covering that position is the one to hand to the library.
+    Returns (block, offset) or None when the boundary is gone or ambiguous.
+    """
+    import gtirb
+    sub = dict(case, edits=list(applied))
+    lst = rewrite.expected(sub)
+    lst.layout()
+    b, i = e["b"], e["i"]
+    nitems = len(lst0.block_info[b]["blk"]["items"])
+    where = None
+    at_end = i >= nitems
+    if not at_end:
+        for si, ii, t in lst.all_tokens():
+            if t.uid == ("o", b, i):
+                where = (si, ii, t.ivpos)
+                break
+    else:
+        for si, ii, t in lst.all_tokens():
+            if t.t in "ID" and (
+                    (t.patch is None and t.bid == b) or
+                    (t.patch is not None and t.site and t.site[0] == b)):
+                end = t.ivpos + t.size
+                if where is None or end > where[2]:
+                    where = (si, ii, end)
+    if where is None:
+        return None
+    si, ii, p = where
+    bi = bu.intervals[si][ii]
+    want_code = lst0.block_info[b]["code"]
+    cands = []
+    for blk in bi.blocks:
+        if isinstance(blk, gtirb.CodeBlock) != want_code or not blk.size:
+            continue
+        if at_end and blk.offset + blk.size == p:
+            cands.append((blk, blk.size))
+        elif not at_end and blk.offset <= p < blk.offset + blk.size:
+            cands.append((blk, p - blk.offset))
+    if len(cands) != 1:
+        return None
+    return cands[0]
+
+
 def run_sequential(case, seed=0):
+    """every modification in a context of its own, in the order apply() uses
+    (block address, offset, registration)"""
     rewrite.install()
     from gtirb_rewriting import RewritingContext
     rng = random.Random(f"uuid:{seed}")
@@ -95,25 +144,41 @@ def run_sequential(case, seed=0):
             for b in next(f["blocks"] for f in case["funcs"]
                           if f["name"] == e["f"]):
                 n = len(lst0.block_info[b]["blk"]["items"])
-                steps.append((order[b], eid, {"op": "del", "b": b, "i": 0,
-                                              "n": n, "proxy": True}))
+                steps.append((order[b], 0, eid,
+                              {"op": "del", "b": b, "i": 0,
+                               "n": n, "proxy": True}))
         else:
-            steps.append((order[e["b"]], eid, e))
+            steps.append((order[e["b"]], e["i"], eid, e))
     rec = rewrite.Recorder()
     exc = None
-    for _, eid, e in sorted(steps, key=lambda x: x[0]):
-        have_fn = "functionEntries" in m.aux_data and \
-            "functionBlocks" in m.aux_data
-        functions = gtirb_functions.Function.build_functions(m) \
-            if have_fn else []
-        try:
-            ctx = RewritingContext(m, functions)
-            _register_one(case, eid, e, bu, ctx, rec, functions)
-            ctx.apply()
-            relayout(case, bu)
-        except Exception as x:  # noqa
-            exc = x
-            break
+    applied = []      # (eid, edit) in registration order
+    unmappable = False
+    rewrite._current = rec
+    try:
+        for _, _, eid, e in sorted(steps, key=lambda x: x[:3]):
+            have_fn = "functionEntries" in m.aux_data and \
+                "functionBlocks" in m.aux_data
+            functions = gtirb_functions.Function.build_functions(m) \
+                if have_fn else []
+            loc = locate(case, bu, lst0,
+                         [x for _, x in sorted(applied, key=lambda y: y[0])],
+                         e)
+            if loc is None:
+                unmappable = True
+                break
+            try:
+                ctx = RewritingContext(m, functions)
+                _register_one(case, eid, e, bu, ctx, rec, functions, loc)
+                ctx.apply()
+                relayout(case, bu)
+            except Exception as x:  # noqa
+                exc = x
+                break
+            applied.append((eid, e))
+    finally:
+        rewrite._current = None
+    bu.rec = rec
+    bu.unmappable = unmappable
     return bu, exc
 
 
@@ -152,13 +217,13 @@ def relayout(case, bu):
         base += irbuild.SEC_BASE
 
 
-def _register_one(case, eid, e, bu, ctx, rec, functions):
+def _register_one(case, eid, e, bu, ctx, rec, functions, loc):
     isa = case["isa"]
-    blk = bu.blocks[e["b"]]
+    blk, off = loc
     offs = bu.item_offsets[e["b"]]
-    off = offs[e["i"]]
+    orig = offs[e["i"]]
     if e["op"] == "del":
-        ctx.delete_at(blk, off, offs[e["i"] + e["n"]] - off,
+        ctx.delete_at(blk, off, offs[e["i"] + e["n"]] - orig,
                       retarget_to_proxy=e.get("proxy", False))
         return
     p = e["p"]
@@ -167,7 +232,7 @@ def _register_one(case, eid, e, bu, ctx, rec, functions):
     if e["op"] == "ins":
         ctx.insert_at(blk, off, patch)
     else:
-        ctx.replace_at(blk, off, offs[e["i"] + e["n"]] - off, patch)
+        ctx.replace_at(blk, off, offs[e["i"] + e["n"]] - orig, patch)
 
 
 def facets(case, bu):
@@ -248,6 +313,38 @@ def facets(case, bu):
     }
 
 
+FACET_ORACLE = {
+    "bytes": "bytes", "symbols": "symbols", "proxy-groups": "symbols",
+    "edges": "cfg", "block-boundaries": "cfg",
+    "function-attribution": "functions", "function-entries": "functions",
+    "annotations": "aux", "expressions": "aux",
+}
+
+
+def model_keys(case, bu, rec):
+    """violation keys of the listing oracles (C01-C04, C06) for one run"""
+    from .. import irview
+    run = rewrite.Run()
+    run.case, run.bu, run.rec = case, bu, rec
+    lst = rewrite.expected(case)
+    exp_bytes = lst.layout()
+    ob = irview.observe(bu, case["isa"])
+    out = {}
+    for fam, fn in (("bytes", lambda: oracles.check_bytes(run, lst, ob,
+                                                          exp_bytes)),
+                    ("symbols", lambda: oracles.check_symbols(run, lst, ob)),
+                    ("cfg", lambda: oracles.check_cfg(run, lst, ob)),
+                    ("aux", lambda: oracles.check_aux(run, lst, ob)),
+                    ("functions", lambda: oracles.check_functions(run, lst,
+                                                                  ob))):
+        try:
+            v, _ = fn()
+            out[fam] = {x["key"] for x in v}
+        except Exception as exc:  # noqa
+            out[fam] = {f"oracle-error:{type(exc).__name__}"}
+    return out
+
+
 def run_case(case):
     from gtirb_rewriting import rewriting as rw
     viol = []
@@ -288,10 +385,17 @@ def run_case(case):
             ctr["precondition_refusals"] = 1
         skip = key
     did_diff = False
-    if one_mod_per_block(case) and case["edits"]:
+    multi = not one_mod_per_block(case)
+    if case["edits"]:
         bu2, exc2 = run_sequential(case)
-        ctr["differential_runs"] = 1
-        did_diff = True
+        if bu2.unmappable:
+            ctr["differential_unmappable"] = 1
+        else:
+            ctr["differential_runs"] = 1
+            if multi:
+                ctr["differential_runs_several_mods_per_block"] = 1
+            did_diff = True
+    if did_diff:
         if (r.exception is None) != (exc2 is None):
             # loud refusals of either mode are not judged
             k1 = oracles.classify_apply_exception(case, r.exception)[0] \
@@ -311,17 +415,34 @@ def run_case(case):
             zero = any(sz == 0 for _, sz in fa["block-boundaries"] |
                        fb["block-boundaries"])
             sfx = ":retained-zero-sized-block" if zero else ""
-            for name in fa:
-                if fa[name] != fb[name]:
-                    only_a = fa[name] - fb[name] if isinstance(
-                        fa[name], (set, frozenset)) else fa[name]
-                    only_b = fb[name] - fa[name] if isinstance(
-                        fb[name], (set, frozenset)) else fb[name]
-                    viol.append({
-                        "key": f"differential:{name}-differ{sfx}",
-                        "msg": f"batch-only {sorted(only_a, key=repr)[:6]} "
-                               f"sequential-only "
-                               f"{sorted(only_b, key=repr)[:6]}"})
+            differing = [n for n in fa if fa[n] != fb[n]]
+            mk_a = mk_b = None
+            if differing:
+                # which of the two runs deviates from the edited listing,
+                # and how: the mechanism keys of the listing oracles
+                mk_a = model_keys(case, r.bu, r.rec)
+                mk_b = model_keys(case, bu2, bu2.rec)
+            for name in differing:
+                only_a = fa[name] - fb[name] if isinstance(
+                    fa[name], (set, frozenset)) else fa[name]
+                only_b = fb[name] - fa[name] if isinstance(
+                    fb[name], (set, frozenset)) else fb[name]
+                fam = FACET_ORACLE[name]
+                ka = sorted(mk_a[fam] - mk_b[fam])[:3]
+                kb = sorted(mk_b[fam] - mk_a[fam])[:3]
+                detail = ""
+                if zero and not ka:
+                    # only the one-at-a-time run deviates from the listing
+                    # and it carries a zero-sized block of an earlier step
+                    detail = ""
+                elif ka or kb:
+                    detail = (":batch[" + ",".join(ka) + "]:sequential[" +
+                              ",".join(kb) + "]")
+                viol.append({
+                    "key": f"differential:{name}-differ{sfx}{detail}",
+                    "msg": f"batch-only {sorted(only_a, key=repr)[:6]} "
+                           f"sequential-only "
+                           f"{sorted(only_b, key=repr)[:6]}"})
     sig = None
     if skip is None and case["edits"] and mon.ctr["hook_events"]:
         sig = rwbase.shape_signature(case) + ("|diff" if did_diff else "")
